@@ -67,7 +67,7 @@ def showNOut (n : String) (o : NOut) : List (String × String) :=
    ("json:" ++ n, toString o.json),
    ("jget:" ++ n, csv (o.jget.map Transfer.pascalS)), ("jset:" ++ n, csv (o.jset.map (fun x => "Set" ++ Transfer.pascalS x))),
    ("jexp:" ++ n, csv o.jexp),
-   ("tags:" ++ n, csv (o.tags.map (fun p => p.1 ++ "=" ++ p.2))), ("opts:" ++ n, csv o.opts), ("defs:" ++ n, csv o.defaults)]
+   ("tags:" ++ n, if o.tags.isEmpty then "-" else ";".intercalate (o.tags.map (fun p => p.1 ++ "=" ++ p.2))), ("opts:" ++ n, csv o.opts), ("defs:" ++ n, csv o.defaults)]
 
 def showOptList : Option (List String) → String
   | none => "none"
